@@ -37,6 +37,7 @@ NANO = ("36.0306", "0.00137")             # 36 uL / 1.37 nmol per unit (not a mu
 PICO = ("36.0306", "0.00037")            # 36 uL / 0.37 nmol per unit: residues and aliquots below a nanomole (and below 1e-3 storage units)
 SUBDISPLAY = ("36.0306", "0.032")         # 36 uL / 32 nmol per unit: single steps move less than the display precision of umol and mg
 NANOSOL = ("3.603061", "0.00137")        # 3.6 uL / 1.37 nmol per unit: solutions made from nanomoles of stock and of solvent
+SUBMICROMOLAR = ("360.3061", "0.00137")  # 0.36 mL / 1.37 nmol per unit: stocks of a few hundred nanomolar (ligands, enzymes, dyes)
 TINY = ("36.0306", "0.1")                # 36 uL / 0.1 umol per unit: sub-micromole amounts (a heavy solute)
 BIG = ("1801530", "100000000")           # 1.8 L / 100 mol per unit: stays far above the rounding quantum of every storage configuration
 
@@ -264,6 +265,9 @@ def plan(prop, tier, seed):
         legs.append(lambda: lab_leg("LabSOL", 1, 8, MICRO, seed, env_extra=skipadm, overrides=None if q else {"SolCases": "SOL_Cases", "FromCases": "SOL_FromFull"}, tag="micro"))
     if prop in ("C05", "C12"):
         legs.append(lambda: lab_leg("LabSOL", 1, 8, NANOSOL, seed, env_extra=skipadm, tag="nano"))
+    if prop == "C12":
+        # stocks below one micromolar (0.48 uM): nothing in the request is small in the units the user states it in
+        legs.append(lambda: lab_leg("LabSOL", 1, 8, SUBMICROMOLAR, seed, env_extra=skipadm, overrides={"SolCases": "NoSet"}, tag="subuM"))
     if prop in ("C12", "C03", "C10"):
         # a stock changed by a transfer, a top-up or an earlier withdrawal, then diluted as requested
         legs.append(lambda: lab_leg("LabSOL3", 2, 8, REALISTIC, seed))
